@@ -81,7 +81,7 @@ class NodeIdPart:
         ]
         for ops in fixed:
             yield dict(univ=UNIV, ops=ops)
-        for i in range(40 if tier == "quick" else 600):
+        for i in range(24 if tier == "quick" else 600):
             yield dict(univ=UNIV, ops=self.gen(rng, 12 if tier == "quick" else 25, calc=(i % 4 == 3)))
 
     def gen(self, rng, n_ops, calc=False):
